@@ -130,6 +130,20 @@ def gen_case(rng):
             late = {"node": BNode("dep_l_%06x" % rng.getrandbits(24)), "order": hi, "deact": False, "conds": [],
                     "kind": ("construct", [(("this",), ("const", EX.s), ("var", 1))], [(("this",), ("const", EX.q), ("var", 1))])}
             rs = [late, early] if rng.random() < 0.6 else [early, late]
+        if chain and i == 0 and rng.random() < 0.6:
+            # a rule that stays productive over several applications (closure of ex:p, one hop per application) followed by a rule
+            # whose condition is NOT monotone (few ex:p values): the documented schedule applies the shape's rule list pass by pass,
+            # so the second rule fires after the first pass, before the closure is complete
+            few = S.new_shape(BNode("fewp_%06x" % rng.getrandbits(24)), ("pred", str(EX.p)))
+            few["comps"].append(("maxcount", rng.choice([1, 2, 2])))
+            cfew = S.new_shape(EX["CondFew%d" % i], None)
+            cfew["comps"].append(("property", [few["id"]]))
+            shapes.extend([few, cfew])
+            closure = {"node": BNode("clo_%06x" % rng.getrandbits(24)), "order": D("0.2"), "deact": False, "conds": [], "kind": ("construct",) + CONSTRUCTS[4]}
+            flag = {"node": BNode("few_%06x" % rng.getrandbits(24)), "order": D("0.7"), "deact": False, "conds": [cfew["id"]],
+                    "kind": ("triple", ("this",), ("const", EX.s), ("const", Literal("few")))}
+            rs = [flag, closure] if rng.random() < 0.5 else [closure, flag]
+            s["targets"] = {"nodes": iri_nodes[:2], "classes": [], "subjects_of": [], "objects_of": []}
         rules[s["id"]] = rs
         shapes.append(s)
     opts = {"iterate_rules": rng.random() < (0.8 if chain else 0.5)}
